@@ -7,8 +7,9 @@ use crate::framework::{Property, RunResult, Tier, Violation};
 use crate::prng::{Digest, Rng};
 use crate::refsem::Sem;
 use crate::refstore::{Applied, RefStore, Upd, L};
-use crate::simsat::{self, BudgetExceeded, Hub, OracleCfg};
-use crate::statics::{check_answer, make_dc, make_ds, Answer, Enc, QKind, Truth, Q};
+use crate::simsat::{BudgetExceeded, Hub, OracleCfg};
+use crate::statics::{check_answer, factory_for, make_dc, make_ds, make_hubs, Answer, Backend, Enc, QKind, Truth, Q};
+use crate::simsat::CHub;
 use crustabri::aa::Argument;
 use crustabri::dynamics::assumptions_on_attacks::{DynamicCompleteSemanticsSolverAttacks, DynamicStableSemanticsSolverAttacks};
 use crustabri::dynamics::{
@@ -78,14 +79,20 @@ pub struct DynCase {
     pub factor: usize,
     pub string_labels: bool,
     pub oracle: OracleCfg,
+    #[serde(default = "default_backend")]
+    pub backend: Backend,
     pub steps: Vec<Step>,
+}
+
+fn default_backend() -> Backend {
+    Backend::Sim
 }
 
 trait DynObj<T: LabelType>: DynamicSolver<T> + CredulousAcceptanceComputer<T> + SkepticalAcceptanceComputer<T> {}
 impl<T: LabelType, X: DynamicSolver<T> + CredulousAcceptanceComputer<T> + SkepticalAcceptanceComputer<T>> DynObj<T> for X {}
 
-fn make_solver<T: LabelType + 'static>(kind: DynKind, factor: f64, hub: &Hub) -> Box<dyn DynObj<T>> {
-    let fac = simsat::factory(hub);
+fn make_solver<T: LabelType + 'static>(kind: DynKind, factor: f64, backend: Backend, hub: &Hub, chub: &Option<CHub>) -> Box<dyn DynObj<T>> {
+    let fac = factory_for(backend, hub, chub);
     match kind {
         DynKind::Complete => Box::new(DynamicCompleteSemanticsSolver::new_with_sat_solver_factory(fac)),
         DynKind::Stable => Box::new(DynamicStableSemanticsSolver::new_with_sat_solver_factory(fac)),
@@ -96,9 +103,11 @@ fn make_solver<T: LabelType + 'static>(kind: DynKind, factor: f64, hub: &Hub) ->
             let sem = kind.sem();
             let h1 = std::rc::Rc::clone(hub);
             let h2 = std::rc::Rc::clone(hub);
+            let c1 = chub.clone();
+            let c2 = chub.clone();
             Box::new(DummyDynamicConstraintsEncoder::new(
-                Some(Box::new(move |af| make_dc(af, sem, Enc::Default, simsat::factory(&h1)))),
-                Some(Box::new(move |af| make_ds(af, sem, Enc::Default, simsat::factory(&h2)))),
+                Some(Box::new(move |af| make_dc(af, sem, Enc::Default, factory_for(backend, &h1, &c1)))),
+                Some(Box::new(move |af| make_ds(af, sem, Enc::Default, factory_for(backend, &h2, &c2)))),
             ))
         }
     }
@@ -126,10 +135,10 @@ fn labels_of<T: LabelType>(ext: &[&Argument<T>], store: &RefStore, mk: &dyn Fn(L
     Ok(out)
 }
 
-fn exec_t<T: LabelType + 'static>(prop: &str, case: &DynCase, mk: &dyn Fn(L) -> T, r: &mut RunResult) {
-    let hub = simsat::new_hub(case.oracle);
+pub fn exec_t<T: LabelType + 'static>(prop: &str, case: &DynCase, mk: &dyn Fn(L) -> T, r: &mut RunResult) -> (Hub, Option<CHub>) {
+    let (hub, chub) = make_hubs(case.oracle, case.backend, &None);
     hub.borrow_mut().call_budget = 20_000;
-    let mut solver: Box<dyn DynObj<T>> = make_solver(case.solver, FACTORS[case.factor % FACTORS.len()], &hub);
+    let mut solver: Box<dyn DynObj<T>> = make_solver(case.solver, FACTORS[case.factor % FACTORS.len()], case.backend, &hub, &chub);
     let mut store = RefStore::default();
     let sem = case.solver.sem();
     let mut updates_since_query = 0u64;
@@ -261,6 +270,9 @@ fn exec_t<T: LabelType + 'static>(prop: &str, case: &DynCase, mk: &dyn Fn(L) -> 
     i2.u64(inter.0);
     i2.u64(inter.1);
     r.interleaving = Some(i2);
+    drop(h);
+    drop(solver);
+    (hub, chub)
 }
 
 fn upd_name(u: &Upd) -> &'static str {
@@ -458,7 +470,7 @@ impl Property for Dyn {
             0
         };
         let steps = gen_history(&mut rng, solver, fault_mode);
-        serde_json::to_value(DynCase { solver, factor: rng.below(FACTORS.len()), string_labels: rng.bool(), oracle, steps }).unwrap()
+        serde_json::to_value(DynCase { solver, factor: rng.below(FACTORS.len()), string_labels: rng.bool(), oracle, backend: Backend::Sim, steps }).unwrap()
     }
     fn exec(&self, case: &Value) -> RunResult {
         let case: DynCase = serde_json::from_value(case.clone()).expect("dynamic case");
